@@ -251,7 +251,8 @@ def _shape(f, e, other):
             it = _resolve_local(fn, g.generators[0].iter)
             tv = src(g.generators[0].target)
             if isinstance(elt, ast.Call) and call_name(elt) == "is_subtype" and src(elt.func.value) == tv and \
-                    src(elt.args[0]) == other and src(it) == "self.get_supertypes()":
+                    src(elt.args[0]) == other and src(it) in ("self.get_supertypes()", "self.supertypes"):
+                # sound whatever the filters are (a subset of the supertypes); completeness is C06-R6's subject
                 return [("nominal-transitive", "")]
             return [("unknown", src(e))]
         return [("unknown", src(e))]
@@ -323,7 +324,7 @@ def r3_positive(repo):
                                 problems.append("`return True` as the whole judgement is sound only for the bottom type "
                                                 "(class names starting with Nothing); class is %s" % cls)
                         else:
-                            just = _true_justified(f, r, gs, other)
+                            just = _true_justified(f, r, gs, other) or _guard_is_sound_answer(f, r, other)
                             if not just:
                                 problems.append("`return True` not justified by an accepted guard; guards: %s" % gs)
                     if s == "widening":
@@ -357,6 +358,28 @@ def r3_positive(repo):
     if n_defs < 25:
         raise AnalysisError("only %d is_subtype/is_assignable definitions found" % n_defs, rule="C06-R3")
     return obs
+
+
+SOUND_ATOMS = {"equality", "nominal-supertype", "nominal-transitive", "delegate-super.is_subtype",
+               "delegate-self.is_subtype"}
+
+
+def _guard_is_sound_answer(f, r, other):
+    """`if <A>: return True` where <A> is itself an accepted positive answer (`other == self or other in
+    self.get_supertypes()`) is the same judgement as `return <A> or ...`."""
+    p = getattr(r, "_parent", None)
+    if not (isinstance(p, ast.If) and r in p.body and len(p.body) == 1):
+        return False
+    flat = []
+
+    def walk(sh):
+        for s_, d in sh:
+            if s_ == "and":
+                flat.append(("and", None))      # a conjunction needs its own justification: not accepted here
+            else:
+                flat.append((s_, d))
+    walk(_shape(f, p.test, other))
+    return bool(flat) and all(s_ in SOUND_ATOMS for s_, _d in flat)
 
 
 def _true_justified(f, r, gs, other):
@@ -470,12 +493,47 @@ def r5_structural_equality(repo):
     return obs
 
 
+def r6_transitivity(repo):
+    """The nominal judgement is transitive because it recurses through the supertypes: `any(st.is_subtype(other) for st in
+    <supertypes> if st != self)`.  Completeness needs every supertype in that recursion: a filter that drops some
+    (only parameterized ones, only the first) loses the types reachable through the dropped ones."""
+    obs = []
+    n = 0
+    for f in _defs(repo, "is_subtype"):
+        other = f.params[1] if len(f.params) > 1 else None
+        for c in calls_in(f.node):
+            if not (call_name(c) == "any" and len(c.args) == 1 and isinstance(c.args[0], ast.GeneratorExp)):
+                continue
+            g = c.args[0]
+            elt = g.elt
+            tv = src(g.generators[0].target)
+            if not (isinstance(elt, ast.Call) and call_name(elt) == "is_subtype" and src(elt.func.value) == tv and
+                    elt.args and src(elt.args[0]) == other):
+                continue
+            it = src(_resolve_local(f.node, g.generators[0].iter))
+            if it not in ("self.get_supertypes()", "self.supertypes"):
+                continue
+            n += 1
+            filters = [" ".join(src(i).split()) for i in g.generators[0].ifs]
+            bad = [x for x in filters if x not in ("%s != self" % tv, "self != %s" % tv, "%s is not self" % tv)]
+            one_gen = len(g.generators) == 1
+            # the answer containing the recursion must not sit behind a test that returns False for some `other` first,
+            # unless that test is about equality / membership in the closure
+            obs.append(Ob("C06-R6", "%s:recursion-through-every-supertype" % f.qualname, _w(f, c), not bad and one_gen,
+                          "the transitive step must recurse through every supertype of `self` (only `%s != self` may be "
+                          "filtered out); iterates %s with filters %s" % (tv, it, filters)))
+    obs.append(Ob("C06-R6", "nominal-recursion-sites>=1", "src/ir/types.py", n >= 1,
+                  "%d `any(st.is_subtype(other) for st in <supertypes>)` sites" % n))
+    return obs
+
+
 def rules():
     return [
         RuleSpec("C06-R1", "containment direction per governing variance (every return)", 10, r1_containment),
         RuleSpec("C06-R2", "all type arguments of the same constructor are checked", 5, r2_all_args),
         RuleSpec("C06-R3", "every positive-capable answer of is_subtype/is_assignable is a sound shape", 29, r3_positive),
         RuleSpec("C06-R4", "bounds are consulted (type variables, wildcards, type constructors)", 5, r4_bounds),
+        RuleSpec("C06-R6", "transitivity: the nominal judgement recurses through every supertype", 2, r6_transitivity),
         RuleSpec("C06-R5", "equality of types is structural (is_subtype starts from ==)", 4, r5_structural_equality),
     ]
 
